@@ -1,8 +1,9 @@
 """Property -> check driver.  MANIFEST.json is generated from this table by bin/mkmanifest."""
 import p_piecestore
 import p_wire
+import p_metadata
 
-HOOK_COMMITS = ["ad8b203", "23d7fe8"]
+HOOK_COMMITS = ["ad8b203", "23d7fe8", "8de280d"]
 
 NOT_APPLICABLE = {}
 
@@ -13,6 +14,14 @@ _PS_NOTE = ("Trusted: TLC, the Go harness (gate scheduler, content PRF, projecti
 _B4 = "TLC-enumerated case table (TLA+ decision function over boundary classes) executed on the real code, outcomes checked by TLC against the specification's invariants"
 
 REGISTRY = {
+    "C12": {"run": p_metadata.run, "design": "DESIGN.md section 3 C12",
+            "technique": "TLC exhaustive model checking of Metadata.tla + replay of TLC behaviours through tor.handleEvent + TLC trace validation",
+            "level": "Metadata.tla (votes, guess with random tie-break, resize, block checks, over-long copies, hash, parse) is model-checked "
+                     "exhaustively for three true sizes; every edge of the state graph and seeded random histories are applied to a real Torrent "
+                     "through tor.handleEvent; the observed buffer after each step is validated by TLC (strict) and Authentic/InBounds are "
+                     "evaluated on every observed state (monitor).",
+            "note": "Trusted: TLC, harness (authentic dictionary builder, block classification), SHA-1 abstraction. The peer-side decoding of "
+                    "ut_metadata messages is not part of this binding (C04/C05)."},
     "C04": {"run": p_wire.run_c04, "design": "DESIGN.md section 3 C04", "technique": _B4,
             "level": "Framing.tla models decoding of one message as a state machine over abstract inputs; TLC checks Total/ExactlyFramed/NeverBeyond/"
                      "Bounded on the model for the full cross product of classes, prints every case, the harness runs protocol.Read on a concrete "
